@@ -6,6 +6,7 @@ contracts (modular), obligations collected as (path condition => goal).
 """
 import ast
 import copy
+import re
 from fractions import Fraction
 
 import z3
@@ -108,6 +109,10 @@ class Path:
         if z3.is_true(cond):
             return
         self.pc.append(cond)
+        if not is_light(cond):
+            # hard facts (quantifiers, rounding, non-linear terms) are kept out of the feasibility solver:
+            # it then over-approximates feasibility, which only costs pruning, never soundness
+            return
         self.solver.add(cond)
         if check and self.engine.prune:
             r = self.solver.check()
@@ -130,6 +135,37 @@ class Path:
         return ".".join(str(c) for c, _ in self.taken)
 
 
+def is_light(f, budget=4000):
+    todo = [f]
+    seen = set()
+    n = 0
+    while todo:
+        t = todo.pop()
+        i = t.get_id()
+        if i in seen:
+            continue
+        seen.add(i)
+        n += 1
+        if n > budget:
+            return False
+        if z3.is_quantifier(t):
+            return False
+        if z3.is_app(t):
+            k = t.decl().kind()
+            if k == z3.Z3_OP_UNINTERPRETED and t.num_args() > 0:
+                nm = t.decl().name()
+                if nm.startswith("RND") or nm.startswith("SUM"):
+                    return False
+            if k in (z3.Z3_OP_MUL, z3.Z3_OP_DIV, z3.Z3_OP_IDIV, z3.Z3_OP_MOD):
+                nonconst = [c for c in t.children() if not (z3.is_rational_value(c) or z3.is_int_value(c))]
+                if k == z3.Z3_OP_MUL and len(nonconst) >= 2:
+                    return False
+                if k != z3.Z3_OP_MUL and not (z3.is_rational_value(t.arg(1)) or z3.is_int_value(t.arg(1))):
+                    return False
+            todo.extend(t.children())
+    return True
+
+
 class Frame:
     def __init__(self, module, cls, func, locals_):
         self.module = module
@@ -148,7 +184,7 @@ class Frame:
 
 
 class Engine:
-    def __init__(self, repo, spec, feas_timeout_ms=400, prune=True):
+    def __init__(self, repo, spec, feas_timeout_ms=150, prune=True):
         self.repo = repo
         self.spec = spec  # loaded sidecars (contracts.Spec)
         self.feas_timeout_ms = feas_timeout_ms
@@ -299,12 +335,63 @@ class Engine:
             goal = z3.BoolVal(True)
         if goal is False:
             goal = z3.BoolVal(False)
-        ob = Obligation(name, p.pc, goal, kind, line, p.pathid(), self.cur_func, self.cur_tags)
+        pc = p.pc
+        if kind != "canary":
+            goal, pc = self.subst_pinned(goal, pc)
+        kf = self.known_regions.get(re.sub(r"@\d+", "", name)) if kind != "canary" else None
+        if kf and self.region_frame is not None:
+            saved = self.spec_mode
+            self.spec_mode = True
+            try:
+                reg = zb(self.truth(self.eval(ast.parse(kf["region"], mode="eval").body, self.region_frame)))
+            finally:
+                self.spec_mode = saved
+            inside = Obligation(name + "#known-region", pc + [reg], goal, "known-region", line, p.pathid(), self.cur_func, self.cur_tags)
+            inside.extra = dict(extra or {}, labels=list(p.labels), axioms=list(self.sum_axioms()), what=kf["what"])
+            p.obligations.append(inside)
+            pc = pc + [z3.Not(reg)]
+        ob = Obligation(name, pc, goal, kind, line, p.pathid(), self.cur_func, self.cur_tags)
         ob.extra = dict(extra or {})
         ob.extra["labels"] = list(p.labels)
         ob.extra["axioms"] = list(self.sum_axioms())
         p.obligations.append(ob)
         return ob
+
+    def subst_pinned(self, goal, pc):
+        """integer terms under non-linear operators that the path pins to a single value are replaced by it
+        (in the goal and in the path condition) - the path condition still carries the pinning facts"""
+        cands = {}
+        todo = [goal] + [c for c in pc if not is_light(c)]
+        seen = set()
+        while todo:
+            t = todo.pop()
+            if t.get_id() in seen or z3.is_quantifier(t):
+                continue
+            seen.add(t.get_id())
+            if z3.is_app(t):
+                if t.decl().kind() in (z3.Z3_OP_MUL, z3.Z3_OP_DIV):
+                    for ch in t.children():
+                        u = ch
+                        if z3.is_app(u) and u.decl().kind() == z3.Z3_OP_TO_REAL:
+                            u = u.arg(0)
+                        if z3.is_int(u) and not z3.is_int_value(u):
+                            cands[u.get_id()] = u
+                todo.extend(t.children())
+        if not cands:
+            return goal, pc
+        from . import builtins_model as bm2
+
+        subs = []
+        for u in cands.values():
+            v = bm2.pinned_int(self, u)
+            if isinstance(v, int):
+                subs.append((u, z3.IntVal(v)))
+        if not subs:
+            return goal, pc
+        goal = z3.simplify(z3.substitute(goal, *subs))
+        facts = [u == v for u, v in subs]
+        pc = [c if is_light(c) else z3.substitute(c, *subs) for c in pc] + facts
+        return goal, pc
 
     # ------------------------------------------------------------------ sums (spec level)
     def sum_axioms(self):
@@ -330,6 +417,8 @@ class Engine:
         sp = self.spec.lookup(name)
         if sp is not None:
             return sp
+        if module is None and name in self.repo.classes:
+            return PyVal("class", ci=self.repo.classes[name])
         if name in bm.BUILTINS:
             return PyVal("builtin", name=name)
         if name in BUILTIN_EXC:
@@ -441,6 +530,26 @@ class Engine:
         p.assume(z3.Not(cond))
         return False
 
+    def decide(self, cond):
+        """True / False when the path condition settles cond, else None (used to simplify spec terms)"""
+        if isinstance(cond, bool):
+            return cond
+        p = self.path
+        if p is None:
+            return None
+        cond = z3.simplify(cond)
+        if z3.is_true(cond):
+            return True
+        if z3.is_false(cond):
+            return False
+        if z3.is_quantifier(cond):
+            return None
+        if not p.feasible_with(cond):
+            return False
+        if not p.feasible_with(z3.Not(cond)):
+            return True
+        return None
+
     def deref(self, v, exc="AttributeError", line=None):
         """Opt value -> inner (forks a None path raising exc)"""
         while isinstance(v, SV) and isinstance(v.sort, Opt):
@@ -457,6 +566,8 @@ class Engine:
         return v
 
     spec_mode = False
+    known_regions = {}
+    region_frame = None
     cur_func = None
     cur_short = "?"
     cur_tags = ()
@@ -554,8 +665,9 @@ class Engine:
         c = self.eval(node.test, fr)
         t = self.truth(c)
         if self.spec_mode:
-            if isinstance(t, bool):
-                return self.eval(node.body if t else node.orelse, fr)
+            d = self.decide(t)
+            if d is not None:
+                return self.eval(node.body if d else node.orelse, fr)
             return bm.ite(self, t, self.eval(node.body, fr), self.eval(node.orelse, fr))
         if self.branch(t, "ifexp"):
             return self.eval(node.body, fr)
@@ -719,6 +831,9 @@ class Engine:
             elif isinstance(st, ast.If):
                 c = self.truth(self.eval(st.test, fr))
                 rest = body[i + 1 :]
+                d = self.decide(c)
+                if d is not None:
+                    c = d
                 if isinstance(c, bool):
                     return self.exec_spec_body((st.body if c else st.orelse) + rest, fr)
                 fr1 = Frame(fr.module, None, fr.func, dict(fr.locals))
@@ -882,6 +997,8 @@ class Engine:
 
     def assign(self, target, v, fr, line):
         if isinstance(target, ast.Name):
+            if fr.contract is not None and target.id in fr.contract.local_sorts:
+                v = bm.coerce(self, v, fr.contract.local_sorts[target.id])
             fr.locals[target.id] = v
         elif isinstance(target, (ast.Tuple, ast.List)):
             items = bm.unpack(self, v, len(target.elts), line)
